@@ -214,6 +214,25 @@ def worker(args):
         if what == "discretizer":
             # the fitted values_orders against the Lean model of the whole class (Model/Pipeline.lean)
             fs += pipe.compare(drv, cls, obj, ds, cfg["min_freq"], cfg.get("markers", {}), stats["pipeline_model"])
+        if obj.features and rng.random() < 0.5:
+            # `_remove_feature` on a copy of the fitted object vs its model (`Disc.removeFeature`, which the theorems on the key
+            # sets of the per-feature attributes are about)
+            import copy as _copy
+            o2 = _copy.deepcopy(obj)
+            victim = rng.choice(list(obj.features) + ["not_a_feature"])
+            st = fitgen.state_wire(obj)
+            try:
+                o2._remove_feature(victim)
+                impl = {"features": list(o2.features), "quant": list(o2.quantitative_features), "qual": list(o2.qualitative_features),
+                        "orders": list(o2.values_orders), "lpv": list(o2.labels_per_values), "feat_dropna": list(o2.features_dropna),
+                        "casting": [[k, list(v)] for k, v in o2.features_casting.items()]}
+            except Exception as e:
+                impl = {"error": f"{type(e).__name__}: {e}"[:200]}
+            model = drv.call({"op": "disc.remove", "state": st, "feature": victim})
+            stats["remove_feature"] = stats.get("remove_feature", 0) + 1
+            if impl != model:
+                fs.append({"kind": "correspondence", "what": "_remove_feature differs from its model (Disc.removeFeature)", "feature": victim,
+                           "impl": impl, "model": model})
         for f in fs:
             f["class"] = cls; f["case"] = case
         fails += fs
